@@ -404,7 +404,15 @@ func TestC19_Cohort(t *testing.T) {
 		}
 		a.X2 = genCohortMember(t, a.X)
 		if op.arity == 2 {
-			switch ir(t, 0, 4, "yKind") {
+			yKind := ir(t, 0, 4, "yKind")
+			switch op.name {
+			case "Cmp", "CmpAbs", "Equal", "Compare", "Min", "Max":
+				// comparisons are decided by the last aligned digits: mostly near-equal operands
+				if ir(t, 0, 2, "nearForCmp") != 0 {
+					yKind = 1
+				}
+			}
+			switch yKind {
 			case 0:
 				a.Y = genCohortMember(t, a.X) // same value: cancellation, equality arms
 			case 1:
